@@ -967,7 +967,7 @@ impl<T: Config> P2PSession<T> {
 
         // we are now at the desired frame
         assert_eq!(self.sync_layer.current_frame(), frame_to_load);
-        self.sync_layer.reset_prediction();
+        self.sync_layer.reset_prediction_after_load();
 
         // step forward to the previous current state, but with updated inputs
         for i in 0..count {
